@@ -24,17 +24,31 @@ theorem stamp_instant_of_converting (off : String → Int) (msg : String) (s : S
     instant off (readBack msg (written true off msg s)) = instant off s := by
   simp [readBack, written, instant]
 
-/-- Full statement (false of the current writers, see `Witness/C13.lean mixed_scale_moves_instant`, open findings
-`C13-mixed-scale-epoch-*`):  `∀ off msg s, instant off (readBack msg (written conv off msg s)) = instant off s`  for `conv` =
-`opmManScaleConv`, `oemPointScaleConv`, `tdmObsScaleConv`.
-Proved part: the instant is kept **iff** the writer converts or the two clocks show the same reading (`off s.scale = off msg`);
-what is missing is the conversion `date.change_scale(TIME_SYSTEM)` in the writers (proposed_fixes/C13-mixed-scale-epochs.diff). -/
-theorem stamp_instant_roundtrip_partial (conv : Bool) (off : String → Int) (msg : String) (s : Stamp) :
+/-- the instant is kept **iff** the writer converts or the two clocks show the same reading — what a writer that prints each date in
+its own scale (the writers before /repo aa1842c) does to a date labelled otherwise -/
+theorem stamp_instant_iff (conv : Bool) (off : String → Int) (msg : String) (s : Stamp) :
     instant off (readBack msg (written conv off msg s)) = instant off s ↔ (conv = true ∨ off s.scale = off msg) := by
   cases conv
   · simp only [readBack, written, instant, Bool.false_eq_true, if_false, false_or]
     constructor <;> intro h <;> omega
   · simp [readBack, written, instant]
+
+/-- read from the source: all three writers convert every date of a message to its TIME_SYSTEM before printing (`in_scale`, /repo aa1842c) -/
+theorem writers_convert_scale : opmManScaleConv = true ∧ oemPointScaleConv = true ∧ tdmObsScaleConv = true := by decide
+
+/-- **Epochs of a message, any label** (clause "epoch(s) to the microsecond in the same time scale", full statement — until /repo
+aa1842c only `…_partial`, for dates labelled like the message): for the OPM maneuver dates, the OEM points (and covariance epochs) and
+the TDM observations as the writers are now, whatever the time scale a date is labelled in and whatever the offsets between the clocks,
+the date read back designates the same instant, and carries the TIME_SYSTEM of the message. -/
+theorem stamp_instant_roundtrip (off : String → Int) (msg : String) (s : Stamp) :
+    ∀ conv ∈ [opmManScaleConv, oemPointScaleConv, tdmObsScaleConv],
+      instant off (readBack msg (written conv off msg s)) = instant off s ∧ (readBack msg (written conv off msg s)).scale = msg := by
+  obtain ⟨h1, h2, h3⟩ := writers_convert_scale
+  intro conv hc
+  simp only [List.mem_cons, List.not_mem_nil, or_false] at hc
+  have : conv = true := by rcases hc with h | h | h <;> simp [h, h1, h2, h3]
+  subst this
+  exact ⟨stamp_instant_of_converting off msg s, rfl⟩
 
 example : instant (fun s => if s = "TT" then 32184000 else 0) (readBack "UTC" (written true (fun s => if s = "TT" then 32184000 else 0) "UTC" ⟨5, "TT"⟩)) =
     instant (fun s => if s = "TT" then 32184000 else 0) ⟨5, "TT"⟩ := stamp_instant_of_converting _ _ _
@@ -74,5 +88,13 @@ theorem ud_key_roundtrip (name : List Char) : udKeyIn (udKeyOut name) = some nam
   simp only [udKeyIn, udKeyOut, hp, if_true, ← hlen, List.drop_left]
 
 example : udKeyIn (udKeyOut "EARTH_MODEL".toList) = some "EARTH_MODEL".toList := ud_key_roundtrip _
+
+/-! ## the form of the points of an ephemeris -/
+
+/-- **OEM writers, any form of the points** (quantifier "every message type x {KVN, XML}"): both writers convert the points to cartesian
+form before reading their coordinates (KVN always did; XML since /repo 1daca9c) -/
+theorem oem_dump_any_form (form : String) : oemDumpForm "kvn" form = true ∧ oemDumpForm "xml" form = true := by
+  have h : oemKvnConvertsForm = true ∧ oemXmlConvertsForm = true := by decide
+  simp [oemDumpForm, h.1, h.2]
 
 end BeyondVerif.C13
